@@ -426,6 +426,7 @@ type TapPacket struct {
 	LargestAc int64    // largest acknowledged number the sender had been told about (in that space) when it sent this
 	SentNS    int64
 	HdrLen    int  // bytes before the packet number field
+	Reset     bool // an unopenable short-header packet ending in a stateless-reset token its sender had issued (RFC 9000 10.3)
 	Repeat    bool // byte-identical repetition of an earlier packet (RFC 9000 10.2.1 allows it for CONNECTION_CLOSE)
 }
 
@@ -538,6 +539,7 @@ type TapConn struct {
 	Closed     [2]bool // CONNECTION_CLOSE seen from dir
 	FirstHS    [2]int  // index into Packets of first Handshake packet, -1
 	saw0RTT    bool
+	resetTok   [2]map[string]bool  // stateless-reset tokens issued by the endpoint sending in dir
 	ServerSCID []byte              // source CID of the server connection the client is talking to
 	Shadow     bool                // a second server-side connection created from a replayed/delayed ClientHello; the client ignores it
 	shadows    map[string]*TapConn // by server SCID
@@ -609,6 +611,7 @@ func (w *Wiretap) newConn(addr string, dcid []byte, ver uint32) *TapConn {
 			c.Crypto[d][s] = &tapStream{}
 		}
 		c.FirstHS[d] = -1
+		c.resetTok[d] = map[string]bool{}
 	}
 	w.Conns = append(w.Conns, c)
 	w.byAddr[addr] = append(w.byAddr[addr], c)
@@ -879,6 +882,26 @@ func (w *Wiretap) Datagram(dir, ord int, clientAddr string, d []byte) []*TapPack
 			} else {
 				sp := p.Space()
 				pn, pl, fb, pt, ok := tapTryOpen(k, d[:end], pnOff, p.Conn.largest[dir][sp], true)
+				if !ok && p.Type != Tap0RTT {
+					// with zero-length connection IDs several connections of one address look alike: try the others
+					for _, oc := range w.byAddr[clientAddr] {
+						if oc == p.Conn {
+							continue
+						}
+						ok2 := false
+						var k2 *tapKeys
+						if p.Type == TapInitial {
+							k2 = oc.initKeys[dir]
+						} else {
+							w.ensureKeys(oc)
+							k2 = oc.hsKeys[dir]
+						}
+						if pn, pl, fb, pt, ok2 = tapTryOpen(k2, d[:end], pnOff, oc.largest[dir][sp], true); ok2 {
+							p.Conn, ok = oc, true
+							break
+						}
+					}
+				}
 				if ok {
 					opened = true
 					p.PN, p.PNLen = pn, pl
@@ -951,6 +974,22 @@ func (w *Wiretap) Datagram(dir, ord int, clientAddr string, d []byte) []*TapPack
 			}
 			if !opened {
 				p.Type = TapUnknown // stateless reset or garbage: classified by the oracles
+				// a shadow server connection (see above) also sends 1-RTT packets; its secrets collide in the key log
+				if dir == 1 {
+					for _, c := range cands {
+						for _, sh := range c.shadows {
+							p.Conn, p.Err, p.Type = sh, "shadow connection: secrets not observable", Tap1RTT
+						}
+					}
+				}
+				if p.Conn == nil && len(d) >= 21 {
+					tok := string(d[len(d)-16:])
+					for _, c := range cands {
+						if c.resetTok[dir][tok] {
+							p.Reset, p.Conn = true, c
+						}
+					}
+				}
 			}
 		}
 		if p.Conn != nil && p.Conn.Shadow && p.Type == TapUnknown {
@@ -1009,6 +1048,7 @@ func (w *Wiretap) accept(p *TapPacket, pt []byte) {
 			c.Crypto[dir][sp].add(f.Offset, f.Data)
 		case "NEW_CONNECTION_ID":
 			c.cids[1-dir][string(f.CID)] = true
+			c.resetTok[dir][string(f.Token)] = true
 		case "CONNECTION_CLOSE", "CONNECTION_CLOSE_APP":
 			c.Closed[dir] = true
 		}
@@ -1039,6 +1079,9 @@ func (w *Wiretap) accept(p *TapPacket, pt []byte) {
 						}
 						if et == 0x39 {
 							c.SrvTP, _ = tapParseTPs(exts[4 : 4+el])
+							if tp, ok := tapTP(c.SrvTP, 0x02); ok {
+								c.resetTok[1][string(tp.Val)] = true
+							}
 						}
 						exts = exts[4+el:]
 					}
